@@ -274,18 +274,20 @@ def _flock_wrap(real):
 
 
 def _fd_func_wrap(name, real):
-    """os.sendfile / copy_file_range(out_fd/dst, in_fd/src, ...): used by shutil's fast copy."""
+    """fd-based writers: os.sendfile / copy_file_range (shutil's fast copy), os.write / pwrite / ftruncate / fsync."""
     def w(*a, **k):
         ctx = current()
         if ctx is None:
             return real(*a, **k)
         try:
-            out_fd = a[0] if name == "sendfile" else a[1]
-            p = ctx.under(os.readlink(f"/proc/self/fd/{out_fd}"))
+            out_fd = a[1] if name == "copy_file_range" else a[0]
+            p = ctx.under(os.readlink(f"/proc/self/fd/{out_fd}")) if isinstance(out_fd, int) else None
         except Exception:
             p = None
         if p:
-            ctx.fire(Event("sendfile", [p]))
+            ev = {"sendfile": "sendfile", "copy_file_range": "sendfile", "write": "f.write", "pwrite": "f.write",
+                  "ftruncate": "f.truncate", "fsync": "f.flush"}[name]
+            ctx.fire(Event(ev, [p]))
         return real(*a, **k)
     w.__wrapped__ = real
     return w
@@ -297,7 +299,7 @@ def install():
     for n, idxs in PATH_FUNCS.items():
         _real[n] = getattr(os, n)
         setattr(os, n, _wrap_path_func(n, _real[n], idxs))
-    for n in ("sendfile", "copy_file_range"):
+    for n in ("sendfile", "copy_file_range", "write", "pwrite", "ftruncate", "fsync"):
         if hasattr(os, n):
             _real[n] = getattr(os, n)
             setattr(os, n, _fd_func_wrap(n, _real[n]))
